@@ -1930,12 +1930,14 @@ static void fstack_account_time(struct uftrace_task_reader *task)
 				if (is_kernel_func)
 					task->stack_count += task->display_depth;
 			}
-			else if (parent && parent->func_stack == NULL) {
+			else if (parent && parent->func_stack == NULL && task->display_depth_set) {
 				/*
 				 * the parent is not selected (--tid): its depth at
 				 * fork() is unknown, use the inherited stack depth.
+				 * Set it right here: fstack_entry() computes
+				 * fork_display_depth before it would derive the depth.
 				 */
-				task->display_depth_set = false;
+				task->display_depth = task->stack_count;
 			}
 
 			task->fork_handled = true;
